@@ -112,9 +112,14 @@ def bfs (es : List (UC × UC)) (target : UC) : Nat → List (UC × List UC) → 
     | some a => some (path ++ [a])
     | none => bfs es target fuel (rest ++ nexts.map (fun a => (a, path ++ [a]))) visited
 
+/-- an upper bound on the number of iterations of the loop of `bfs` (a node is marked visited
+    when popped, so the queue may grow exponentially; see `Proofs/BfsLemmas.lean`,
+    `bfs_fuel_suffices`).  The number is only decremented, never iterated over. -/
+def bfsFuel (es : List (UC × UC)) : Nat := (es.length + 1) ^ es.length + 1
+
 def findShortestPath (es : List (UC × UC)) (start target : UC) : Option (List UC) :=
   if start.beq target then some [start]
-  else bfs es target ((es.length + 2) * (es.length + 2) + 2) [(start, [start])] []
+  else bfs es target (bfsFuel es) [(start, [start])] []
 
 /-- a walk along edges -/
 def isPath (es : List (UC × UC)) : List UC → Bool
